@@ -121,6 +121,12 @@ def model_op(c, ob):
     sizes = [len(r) for r, _ in ob["rounds"]] + ([len(ob["tail"])] if ob["tail"] else [])
     uus = [core.bits_list(u) if u is not None else [] for _, u in ob["rounds"]]
     idx = [int(v) for v in ob["choices"][-1]["out"]] if ob["choices"] else None
+    if idx is None and c["shuffle"]:
+        ev = [r for rr, _ in ob["rounds"] for r in rr] + list(ob["tail"])
+        if ev != list(range(len(ev))) and len(set(ev)) == len(ev) and all(0 <= r < c["N"] for r in ev):
+            # shuffled without a `choice` draw: the model takes the observed order (completed arbitrarily)
+            seen = set(ev)
+            idx = ev + [r for r in range(c["N"]) if r not in seen]
     return {"op": "iter.sample", "libLL": core.bits_list(c["profile"]), "lnp": core.bits_list(c["lib"].lnp),
             "req": c["req"], "maxPrior": c["max_prior"], "initBatch": kw.get("init_batch_size"),
             "growth": int(kw["growth_factor"]), "nLinear": c["n_linear"], "maxiter": 128,
@@ -279,8 +285,8 @@ def _run(ctx, g, c):
 
     growth_rounds = max(0, len(sizes) - 1)
     ctx.count("growth rounds: 0" if growth_rounds == 0 else ("growth rounds: 1" if growth_rounds == 1 else "growth rounds: 2+"))
-    if c["shuffle"] and ob["choices"]:
-        ctx.count("opt:shuffle (choice drawn)")
+    if c["shuffle"] and (ob["choices"] or evaluated != list(range(len(evaluated)))):
+        ctx.count("opt:shuffle (rows evaluated in a drawn order)")
     if c["max_prior"] is not None and not over:
         ctx.count("opt:max_prior_samples<=N")
     if c["pool"] is not None:
@@ -328,7 +334,7 @@ def post(ctx):
     need = 30 if ctx.thorough else 10
     for k in ("growth rounds: 0", "growth rounds: 1", "growth rounds: 2+", "exit:enough", "exit:budget-exhausted",
               "exit:small-library", "non-finite likelihood evaluated", "guard:inmem non-finite",
-              "opt:shuffle (choice drawn)", "opt:max_prior_samples<=N", "opt:pool", "opt:n_linear>1",
+              "opt:shuffle (rows evaluated in a drawn order)", "opt:max_prior_samples<=N", "opt:pool", "opt:n_linear>1",
               "path:inmem", "path:object", "path:file"):
         ctx.require(k, ctx.counters[k], need)
     ctx.assumptions = core.TRUSTED_BASE + [
